@@ -145,6 +145,7 @@ def run(ctx):
                         ctx.count("splices")
     ctx.exhaustive = True
     rng = ctx.rng
+    pal = obs.PALETTE
     if ctx.shard[0] == 0:
         for new in MARKUP_STRS:
             for spec in ([["ab", {"fg": 31}], ["cd", {}]], [["xyz", {"bold": True}]]):
@@ -158,6 +159,14 @@ def run(ctx):
         s = rng.randint(0, L + 2)
         e = rng.choice([None, rng.randint(s, L + 2)])
         case = {"spec": spec, "new": new, "start": s, "end": e}
+        if rng.random() < .15 and e is not None and e > s and L:
+            # the replacement spells the very characters it replaces, formatted differently (a
+            # re-highlight): the result has the new formatting there
+            text = "".join(t for t, _ in spec)[s:e]
+            if text:
+                k = rng.randint(0, len(text))
+                new = [r for r in ([text[:k], dict(rng.choice(pal))], [text[k:], dict(rng.choice(pal))]) if r[0]]
+                case = {"spec": spec, "new": new, "start": s, "end": e}
         tw = obs.twin(spec, rng)
         if tw is not None and rng.random() < .5:
             case["twin_first"] = tw
